@@ -1210,6 +1210,32 @@ fn literals(c: &mut Ctx) {
 	] {
 		v.push(s.to_string());
 	}
+	// forms around the defects repaired in round 4 (kept as regression cases)
+	for s in [
+		// `::` / `:::` are single tokens
+		"{ a ( x ) : : x }", "{ a :/**/: 1 }", "{ a :\n: 1 }", "{ a :: /* c */ : 1 }", "{ a +: : 1 }", "{ a + : : 1 }", "{ a ::: 1 , b :: : 2 }",
+		"{ a : : : 1 }", "{ assert a : : b }", "{ a : ::b }", "a [ : : ]", "a [ 1 : : 2 ]", "a [ :/**/: ]",
+		// text block indentation is compared character by character
+		"|||\n \ta\n \tb\n\t \t|||", "|||\n \ta\n  b\n|||", "|||\n\t\ta\n\t b\n|||", "|||\n  a\n \tb\n|||", "|||\n\ta\n  b\n|||", "|||\n \ta\n \t\tb\n \t|||",
+		"|||\n \ta\n\t|||", "|||\n\t a\n \t|||", "|||\n  a\n\t\t\t|||", "|||\n\ta\n        |||",
+		// comprehensions end with their specs, the first of which is a for
+		"[ x for x in y , for z in w ]", "[ x , for x in y , ]", "[ x for x in y if z , ]", "[ x , if x ]", "[ x if x , ]", "[ x for x in y , z ]",
+		"{ [ x ] : 1 for x in y , local a = 1 }", "{ [ x ] : 1 for x in y , for z in w }", "{ [ x ] : 1 if x }", "{ [ x ] : 1 , if x }",
+		"{ local a = 1 , for x in y }", "{ local a = 1 , local b = 2 for x in y }", "{ local a = 1 if x }", "{ [ x ] : 1 for x in y if z , }",
+		"{ [ x ] : 1 , local a = 1 , for x in y }", "{ [ x ] : 1 for x in y , [ z ] : 2 }", "{ a ( x ) : 1 for x in y }",
+		// no `+` before method parameters
+		"{ a + ( x ) :: 1 }", "{ \"a\" + ( x ) : 1 }", "{ [ a ] + ( ) : 1 }", "{ a + ( ) +: 1 }", "{ a +( x ) : 1 for x in y }",
+		// local / assert as operands
+		"a + local b = 1 ; b * assert c ; d", "- local a = 1 ; a", "~ assert a ; b + 1", "a && local b = 1 , c = 2 ; b", "a in local b = 1 ; b", "a * local", "a * assert",
+		"! local ; a", "a { } * local b = 1 ; b", "f ( a * local b = 1 ; b )", "[ a * local b = 1 ; b , c ]", "a * local b = 1 ; b { }", "a - assert b : c ; d",
+		"a == local b = 1 ; b == c", "- - local a = 1 ; a", "a * local b = 1 , ; b", "a < local f ( x ) = x ; f ( 1 )", "a * ( local b = 1 ; b ) * c",
+		// import takes any expression
+		"importstr a", "importbin a . b", "import a + 1", "import local a = \"x\" ; a", "import import \"a\"", "import if a then \"b\" else \"c\"", "import )", "import ,",
+		"import [ ]", "import { }", "import function ( ) 1", "import - 1", "import error \"x\"", "import 1", "import \"a\" \"b\"", "import a b", "import ( )", "a + import b",
+		"import assert a ; \"b\"", "[ import a , importstr b ]", "import /* c */ a", "import self", "import $ . a", "import super . a", "import \"a\" { }", "import a { }",
+	] {
+		v.push(s.to_string());
+	}
 	for s in v {
 		c.agree("literal", &s, None, false);
 	}
